@@ -31,6 +31,36 @@ def check_page_text(text, expected, zdir):
     return G.diff_notes(expected, got, today)
 
 
+_SWAP_KIND = {"o": "x", "x": "o", "~": "<", "<": "~", ">": "o", "-": "-"}
+_SWAP_WORD = {"foo": "bar", "bar": "foo", "Baz": "qux", "note": "todo", "todo": "note", "ok": "x1", "x1": "ok"}
+
+
+def same_size_variant(ap):
+    """An edited copy of the abstract page whose text has the same length (kinds, priorities, words swapped)."""
+    import copy
+
+    ap = copy.deepcopy(ap)
+
+    def items():
+        for b in ap.top_blocks:
+            yield from b
+        stack = list(ap.top_h2s) + list(ap.h1s)
+        while stack:
+            s_ = stack.pop()
+            for b in s_.blocks:
+                yield from b
+            stack.extend(s_.subs)
+
+    for it in items():
+        if it.kind == "#":
+            continue
+        it.kind = _SWAP_KIND[it.kind]
+        if it.priority:
+            it.priority = "P" + str((int(it.priority[1]) + 1) % 10)
+        it.words = [_SWAP_WORD.get(w, w) for w in it.words]
+    return ap
+
+
 def run_random(tier, seed, n_quick=300, n_thorough=4000, name="pages_random"):
     rng = random.Random(seed * 7919 + 13)
     n = n_quick if tier == "quick" else n_thorough
@@ -41,6 +71,14 @@ def run_random(tier, seed, n_quick=300, n_thorough=4000, name="pages_random"):
             ap = G.rand_page(rng)
             text, exp = G.render(ap)
             err = check_page_text(text, exp, zdir)
+            if not err:
+                # same-size edit recompiled at once through the same path (a stale cached compilation would show)
+                text2, exp2 = G.render(same_size_variant(ap))
+                if len(text2) == len(text) and text2 != text:
+                    err = check_page_text(text2, exp2, zdir)
+                    if err:
+                        err = "after a same-size edit of the page: " + err
+                        text = text + "\n=== edited to ===\n" + text2
             if len(exp) >= 2:
                 nontriv.add(text)
             if err:
